@@ -557,6 +557,10 @@ func (e *Env) call(x *ECall) Val {
 				rootv := e.x.loadField(e.st, l.TreeOwner, l.Ref, l.RootPath)
 				arrv := e.x.loadField(e.st, l.Owner, l.NodeRef, l.Path[0])
 				return scalar(l.T, ite(l.IsRoot, rootv.S, sel(arrv.S, l.Idx)))
+			case LLocal:
+				if cv, ok := e.st.locals[l.Local]; ok {
+					return cv
+				}
 			}
 			efail("deref of %s", describe(v))
 		case "slot_isroot":
